@@ -92,3 +92,29 @@ def _h4(op, a: int, b: B.SymbolicInt):
 for h in (_h2, _h3, _h4):
     B.setup_binop(h, {ops.and_, ops.or_, ops.xor})
 B._BIN_OPS.clear()
+
+
+# ---- f-strings of symbolic ints (error messages such as f'Chunk length {n} is out of range'): CrossHair's SymbolicInt.__format__ realizes the
+# int, i.e. one path per VALUE of n on an error path whose message nobody reads.  With an empty format spec the result is by definition str(n),
+# for which CrossHair has a lazy symbolic string that forks only on the number of digits.
+def _install_format():
+    try:
+        from crosshair import core as _core
+        from crosshair.libimpl import builtinslib as _bl
+        from crosshair.tracers import NoTracing
+    except Exception:
+        return
+    ch_format = _core._PATCH_REGISTRATIONS.get(format)
+    if ch_format is None:
+        return
+
+    def _format(obj, format_spec=''):
+        with NoTracing():
+            lazy = isinstance(obj, _bl.SymbolicInt) and type(format_spec) is str and format_spec == ""
+        if lazy:
+            return obj.__repr__()
+        return ch_format(obj, format_spec)
+    _core._PATCH_REGISTRATIONS[format] = _format
+
+
+_install_format()
